@@ -25,4 +25,9 @@ CLAIMED = {
   text="All ordered pairs of the enumerated universe are compared on the real code and must give the sign of the rpmvercmp port applied to epoch, version and release; disagreements are attributed to a listed finding only when the reference's deciding rule and the observed sign match the finding exactly.",
   note="Trusted base: the Go port of rpmvercmp (engine/ref/rpm.go), asserted on every run against rpm's documented test vectors; no executable rpm exists in this image. Missing-vs-present release uses rpmVersionCompare's convention; '~'-leading releases there are not claimed.",
   ref="DESIGN.md 4 (C11), Appendix A.4"),
+ "C08": dict(
+  technique="bounded-exhaustive enumeration of SemVer strings (cores x all pre-release identifier lists up to a bound over a stated identifier alphabet x build variants; Go pseudo-version forms) x all ordered pairs on the real Compare against a SemVer 2.0.0 section-11 model (golang: golang.org/x/mod/semver itself); all strings <= L for strict-semver acceptance",
+  text="All ordered pairs of the enumerated universe per ecosystem are compared on the real code against the reference; the strict semver parser is run on every string up to the length bound against the official grammar.",
+  note="Trusted base: engine/ref/semver.go, replayed against node-semver 7.6.2 (thorough tier); golang uses x/mod/semver v0.22.0 directly. NuGet pairs differing only by identifier case are not claimed.",
+  ref="DESIGN.md 4 (C08), Appendix A.1"),
 }
